@@ -229,9 +229,8 @@ func (self *DbImpl) Stats() bbolt.Stats {
 }
 
 func (self *DbImpl) RootBucket(tx *bbolt.Tx) (*bbolt.Bucket, error) {
-	self.reloadLock.RLock()
-	defer self.reloadLock.RUnlock()
-
+	// no reloadLock here: the caller is inside a transaction (Update/Batch/View), which holds the read lock already.
+	// Taking it a second time deadlocks with a restore which asked for the write lock in between.
 	rootBucket := tx.Bucket([]byte(self.rootBucket))
 	if rootBucket == nil {
 		return nil, fmt.Errorf("db missing root bucket [%v]", self.rootBucket)
@@ -260,9 +259,8 @@ func (self *DbImpl) Snapshot(path string) (string, string, error) {
 }
 
 func (self *DbImpl) SnapshotInTx(tx *bbolt.Tx, path string) (string, string, error) {
-	self.reloadLock.RLock()
-	defer self.reloadLock.RUnlock()
-
+	// no reloadLock here: the caller is inside a transaction (Update/Batch/View, see Snapshot), which holds the read
+	// lock already. Taking it a second time deadlocks with a restore which asked for the write lock in between.
 	now := time.Now()
 	dateStr := now.Format("20060102")
 	timeStr := now.Format("150405")
